@@ -6,6 +6,8 @@ package main
 import (
 	"flag"
 	"fmt"
+	"golang.org/x/tools/go/ssa"
+	"mocverif/internal/an"
 	"os"
 	"path/filepath"
 	"sort"
@@ -27,7 +29,28 @@ func main() {
 	dump := flag.Bool("dump", false, "print every obligation")
 	noSelf := flag.Bool("no-selftest", false, "thorough tier: skip the seeded-mutant self-test")
 	ssaDump := flag.String("ssa", "", "debug: print the SSA of module functions whose name contains this string")
+	pathsDump := flag.String("paths", "", "debug: print the access path of every value of module functions whose name contains this string")
 	flag.Parse()
+	if *pathsDump != "" {
+		p, err := core.Load(*repo)
+		if err != nil {
+			fatal("%v", err)
+		}
+		for _, fn := range p.ModFuncs {
+			if !strings.Contains(fn.String(), *pathsDump) {
+				continue
+			}
+			fmt.Println("##", fn.String())
+			for _, b := range fn.Blocks {
+				for _, in := range b.Instrs {
+					if v, ok := in.(ssa.Value); ok {
+						fmt.Printf("  b%d %-6s %s\n", b.Index, v.Name(), an.PathOf(v))
+					}
+				}
+			}
+		}
+		return
+	}
 
 	if *ssaDump != "" {
 		p, err := core.Load(*repo)
